@@ -48,7 +48,10 @@ def read_file(path, engine):
     import xyzpy
     if not os.path.exists(path):
         return None
-    return canon_df(xyzpy.manage.load_df(path, engine=engine))
+    try:
+        return canon_df(xyzpy.manage.load_df(path, engine=engine))
+    except Exception as e:  # noqa  (a table file that its own engine cannot read: reported, not a harness crash)
+        return [["unreadable", f"{type(e).__name__}: {str(e)[:80]}"]]
 
 
 def run_history(c, tmp, idx):
@@ -169,6 +172,9 @@ def run_history(c, tmp, idx):
             c.violation("sampling-raised", f"{type(e).__name__}: {str(e)[:200]}", rep)
             break
         after = read_file(path, engine)
+        if after and after[0][0] == "unreadable":
+            c.violation("table-unreadable", f"the table file cannot be read with the sampler's engine ({engine}): {after[0][1]}", rep)
+            break
         if kind != "new_session":
             rows = canon_df(last)
             # ---- the property statement
